@@ -112,7 +112,14 @@ def gen_world(seed, tier):
         seq = ["solve"] + rng.sample(["get_solution", "get_solution", "get_objective_value", "get_objective_value", "solve", "is_valid_solution"], rng.randint(1, 4))
         if cname.startswith("Min") and rng.random() < 0.3:
             seq = ["get_lowerbound_k"] + seq
-        for s in seq:
+        long_pause_before = None
+        if "time_limit" in so0 and args.get("solver_options") == "@so0" and rng.random() < 0.6:
+            # a budgeted model that is used again after more wall time than its whole budget has passed
+            seq = seq + ["solve"]
+            long_pause_before = len(seq) - 1
+        for si, s in enumerate(seq):
+            if si == long_pause_before:
+                ops.append({"op": "pause", "h": h, "seconds": so0["time_limit"] * rng.choice([2, 10])})
             if rng.random() < 0.25:
                 # the caller does something else for a while: (virtual) wall time passes between two calls
                 ops.append({"op": "pause", "h": h, "seconds": rng.choice([30, 100, 1000, 5000, 20000])})
